@@ -866,6 +866,7 @@ func C07(run *mon.Run) {
 	dkgLargeGroups(run)
 	dkgCraftedDealings(run)
 	dkgRootAnswered(run)
+	dkgSynchronousNetwork(run)
 	run.Require(run.Counter("end.ok") >= 50 && run.Counter("end.dkg-failure") >= 50, "both honest outcomes (keys / DKG failure) not seen at least 50 times")
 }
 
